@@ -10,12 +10,20 @@ Safety model (bank-grade, fail closed):
   metadata/inflight/) are protected regardless of age, until their marker
   exceeds the abandonment timeout. This protects long-running batch loads
   whose files exist before the commit that makes them reachable.
+- A run announces itself (metadata/collecting/) before it loads the markers
+  and withdraws the announcement when it ends. A marker only protects against
+  runs that load the markers after it was written; a transaction that adopts
+  files which already exist - and may already be older than the grace period
+  (Transaction.append_files) - therefore registers its markers first and then
+  looks for an announcement: either the run sees the marker, or the
+  transaction sees the run and refuses the adoption (retry when it is over).
 """
 
 import json
 import logging
 import time
-from typing import Any, Dict, Set
+import uuid
+from typing import Any, Dict, Optional, Set
 
 from .file_manager import FileManager
 from .metadata_manager import MetadataManager
@@ -31,10 +39,44 @@ INFLIGHT_PATH = "metadata/inflight"
 DEFAULT_INFLIGHT_TIMEOUT_MS = 24 * 3600 * 1000
 
 
+# Directory (relative to table root) holding the announcements of collection
+# runs in progress: one small JSON file per run, {"started_ms", "grace_period_ms"}.
+COLLECTING_PATH = "metadata/collecting"
+
+
 class GarbageCollectionAborted(RuntimeError):
     """Raised when GC aborts because reachability could not be fully computed."""
 
     pass
+
+
+class CollectionInProgressError(RuntimeError):
+    """Raised when pre-built files cannot be adopted safely because a garbage
+    collection run is in progress. Nothing was queued; retry once it is over."""
+
+    pass
+
+
+def collection_in_progress(storage: Any) -> Optional[str]:
+    """Return the announcement of a collection run that is in progress, if any.
+
+    An announcement counts until it is withdrawn or until the grace period it
+    names has passed since the run started (a run is required to be shorter
+    than its grace period; a crashed run's announcement expires this way). An
+    announcement that cannot be read counts as a run in progress (fail closed).
+    """
+    now_ms = time.time() * 1000
+    for path in storage.list_files(COLLECTING_PATH):
+        try:
+            payload = json.loads(storage.read_file(path).decode("utf-8"))
+            expires_ms = float(payload["started_ms"]) + float(payload["grace_period_ms"])
+        except FileNotFoundError:
+            continue  # withdrawn between the listing and the read: that run is over
+        except Exception:
+            return str(path)
+        if now_ms < expires_ms:
+            return str(path)
+    return None
 
 
 class GarbageCollector:
@@ -183,6 +225,46 @@ class GarbageCollector:
 
         logger.info(f"Garbage collection complete. Deleted: {stats}")
         return stats
+
+    def announce_run(self, grace_period_ms: int) -> str:
+        """Announce a collection run BEFORE its collect() loads the in-flight
+        markers; returns the announcement to hand to withdraw_run().
+
+        Transaction.append_files() writes its markers and then looks for an
+        announcement. With the announcement written before the markers are
+        loaded, a transaction whose markers this run did not see is guaranteed
+        to see the run (and refuses to adopt files the run may be about to
+        delete). Expired announcements of runs that never withdrew are removed.
+        A run that cannot announce itself does not start (fail closed).
+        """
+        now_ms = time.time() * 1000
+        try:
+            for path in self.storage.list_files(COLLECTING_PATH):
+                try:
+                    payload = json.loads(self.storage.read_file(path).decode("utf-8"))
+                    if float(payload["started_ms"]) + float(payload["grace_period_ms"]) <= now_ms:
+                        self.storage.delete_file(path)
+                except Exception:
+                    continue  # unreadable / concurrently withdrawn: leave it alone
+            announcement = f"{COLLECTING_PATH}/{uuid.uuid4().hex}.json"
+            payload_bytes = json.dumps(
+                {"started_ms": int(now_ms), "grace_period_ms": int(grace_period_ms)}
+            ).encode("utf-8")
+            self.storage.write_file(announcement, payload_bytes)
+        except Exception as e:
+            raise GarbageCollectionAborted(
+                f"Aborting GC: cannot announce the collection run under {COLLECTING_PATH}: {e}. "
+                f"Nothing was deleted."
+            ) from e
+        return announcement
+
+    def withdraw_run(self, announcement: str) -> None:
+        """Withdraw the announcement of a run that has ended (best effort: one
+        that cannot be removed expires with the grace period it names)."""
+        try:
+            self.storage.delete_file(announcement)
+        except Exception as e:
+            logger.warning(f"Failed to withdraw collection announcement {announcement}: {e}")
 
     def _require_hinted_metadata_present(self, metadata: Any) -> None:
         """Abort unless the metadata the collection is about to trust is the one
